@@ -8,6 +8,7 @@ import os
 import shutil
 import tempfile
 import warnings
+import math
 import numpy as np
 import torch
 from ..lib.core import f2b, b2f
@@ -187,6 +188,7 @@ def run(ctx):
         image_range_cases(ctx, tmp)
         tensor_layout_cases(ctx, tmp)
         loaded_values_stay(ctx, tmp)
+        scalar_type_cases(ctx, tmp)
         # ---------------- tensors
         for _ in range(ctx.n(3, 20)):
             t = torch.randn(rng.randint(1, 5), rng.randint(1, 5), dtype=rng.choice([torch.float32, torch.float64, torch.complex64]))
@@ -446,6 +448,46 @@ def tensor_layout_cases(ctx, tmp):
                 ctx.violation('%s tensor (shape %s, stride %s, %s) does not read back identically: %s' % (
                     name, tuple(t.shape), t.stride(), t.dtype, 'shape %s dtype %s' % (tuple(back.shape), back.dtype) if isinstance(back, torch.Tensor) else type(back)),
                     rec, {'fn': 'save_torch_tensor', 'what': 'roundtrip', 'layout': name})
+
+
+def scalar_type_cases(ctx, tmp):
+    """the range arguments of save_image handed over as the scalars a NumPy / torch program naturally has - `img.max()` (a NumPy float64 or a 0-d tensor),
+    `np.float64(1.)`, `np.int64(255)` - instead of Python numbers: the same file.  In particular load -> save(cmax = img.max()) -> load returns the levels."""
+    import odak.tools as NT
+    import odak.learn.tools as LT
+    fn = os.path.join(tmp, 'scalar.png')
+    for depth in (8, 16):
+        top = 2 ** depth - 1
+        levels = np.arange(0, top + 1, dtype=np.float64) if depth == 8 else np.concatenate([np.arange(0, 65536, 7, dtype=np.float64), [65535.0, 32895.0, 32896.0, 1.0, 2.0, 3.0]])
+        side = int(math.ceil(math.sqrt(levels.size)))
+        lv = np.resize(levels, (side, side))
+        norm = lv / top                                 # a normalised image, as load_image(fn, normalizeby = top) returns it
+        NT.save_image(fn, lv.copy(), cmin=0, cmax=top, color_depth=depth)
+        loaded = NT.load_image(fn, normalizeby=float(top))
+        ref_levels = NT.load_image(fn).astype(np.int64)
+        variants = [('cmax = 1.0 (Python float)', norm, 1.0), ('cmax = np.float64(1.)', norm, np.float64(1.0)), ('cmax = np.float32(1.)', norm, np.float32(1.0)),
+                    ('cmax = img.max() of the loaded image', np.asarray(loaded, dtype=np.float64), np.asarray(loaded).max()),
+                    ('cmax = np.int64(top) for integer levels', lv, np.int64(top)), ('cmax = np.float64(top) for integer levels', lv, np.float64(top))]
+        for what, img, cm in variants:
+            for api in ('numpy', 'torch'):
+                ctx.case(('scalar_types', depth, what, api), True)
+                ctx.count('save_image range given as/' + what.split(' (')[0])
+                rec = {'fn': 'save_image', 'api': api, 'depth': depth, 'variant': what}
+                try:
+                    if api == 'numpy':
+                        NT.save_image(fn, np.array(img, dtype=np.float64), cmin=0, cmax=cm, color_depth=depth)
+                    else:
+                        LT.save_image(fn, torch.tensor(np.array(img, dtype=np.float64)), cmin=0, cmax=torch.tensor(float(cm)) if 'img.max' in what else cm, color_depth=depth)
+                    back = NT.load_image(fn).astype(np.int64)
+                except (Exception, SystemExit):
+                    ctx.count('save_image range given as/rejected')
+                    continue
+                bad = int(np.sum(back != ref_levels)) if back.shape == ref_levels.shape else -1
+                if bad:
+                    ctx.violation('%s save_image, %d bit, %s: %s of %d stored levels differ from the levels of the image (largest deviation %s level(s))'
+                                  % (api, depth, what, 'the shape and' if bad < 0 else bad, ref_levels.size,
+                                     int(np.max(np.abs(back - ref_levels))) if bad > 0 else '?'), rec,
+                                  {'fn': 'save_image', 'what': 'range_scalar_type', 'api': api, 'depth': depth})
 
 
 def loaded_values_stay(ctx, tmp):
